@@ -55,6 +55,9 @@ class Rig:
                 elif op == "peer":
                     f = fakesock.FakeConn(ca=ADDR[a[0]], ha=("127.0.0.1", 56000), tls=self.tls, registry=None)
                     f.peer = a[0]
+                    # every second connection has been reset by its peer by the time the server shuts it down: shutdown()
+                    # answers ENOTCONN, the descriptor is still the server's to close
+                    f.rst = len(self.conns) % 2 == 1
                     self.listener().pending.append(f)
                     self.conns.append(f)
                 elif op == "service":
